@@ -76,6 +76,14 @@ def _inv_case(ctx, struct, ops, cplx, subset, prestate, legflags, consume):
         C.consumers(ctx, W, full, tag, which=tuple(consume) if isinstance(consume, (list, tuple)) else ALL_CONSUMERS)
 
 
+# operations for which the symbolic choice of the stored-block subset is run in the quick tier (missing blocks matter most)
+CHOOSE_OPS = {('add', 'same'), ('tensordot', 'full'), ('inner', 'range'), ('transpose', 'none'), ('combine_legs', 'all'), ('take_slice', 'one'),
+              ('iproject', 'mask'), ('ipurge_zeros', 'cutoff'), ('iadd', 'permuted'), ('trace', 'rank3_labels')}
+# core selection for the slow Z3 structure in the quick tier
+CORE_OPS = CHOOSE_OPS | {('tensordot', 'labels'), ('outer', 'd'), ('conj', 'd'), ('itranspose', 'perm'), ('iswapaxes', 'first_last'), ('sub', 'same'),
+                         ('split_legs', 'unsorted'), ('getitem', 'negstep'), ('setitem', 'slice_npc'), ('sort_legcharge', 'default'),
+                         ('concatenate', 'axis0'), ('gauge_total_charge', 'new'), ('squeeze', 'none'), ('extend', 'leg'), ('add_trivial_leg', 'front'),
+                         ('permute', 'first'), ('scale_axis', 'first'), ('drop_charge', 'last'), ('from_ndarray', 'roundtrip'), ('copy', 'shallow')}
 QUICK_CONSUMERS = ('add', 'tensordot', 'sort_legcharge', 'legsort')
 ALL_CONSUMERS = ('add', 'radd', 'tensordot', 'inner', 'sort_legcharge', 'legsort')
 
@@ -91,35 +99,43 @@ def CASES(tier, seed):
     c_choose = dict(subset='choose', prestate='sorted', legflags='false', opt_level=0)
     c_lvl3 = dict(subset='all', prestate='reversed', legflags='false', opt_level=3)
     c_none = dict(subset='none', prestate='sorted', legflags='computed', opt_level=1)
-    c_lvl0 = dict(subset='all', prestate='choice', legflags='computed', opt_level=0)
+    c_lvl0 = dict(subset='all', prestate='rotated', legflags='computed', opt_level=0)
     plan = []  # (structure index, combination, cost limit of the operations)
     for si, st in enumerate(structsA):
         m = st['mods'][0]
         first = st['legs'][0]['qconj'] == 1 and st['legs'][1]['qconj'] == -1
         if quick:
             if m == 1 and first:
-                plan += [(si, c_all, 30), (si, c_none, 100)]
+                plan += [(si, c_all, 30), (si, c_none, 30)]
             elif m == 2 and first:
-                plan += [(si, c_lvl3, P1.HEAVY)]
+                plan += [(si, c_lvl3, 30)]
             elif m == 2 and not first:
-                plan += [(si, c_choose, 3)]
+                plan += [(si, c_choose, 30)]
             elif m == 3 and first:
-                plan += [(si, c_lvl0, 6)]
-        else:
-            plan += [(si, [c_all, c_lvl3, c_lvl0][si % 3], 100)]
+                plan += [(si, c_lvl0, 30)]
+        else:  # thorough: all variants on the first qconj pattern, core selection on the others
+            plan += [(si, [c_all, c_lvl3, c_lvl0][(si // 3 + si) % 3], 100 if first else -1)]
             if first:
-                plan += [(si, c_none, 100), (si, c_choose, 6)]
+                plan += [(si, c_none, 100), (si, c_choose, -2)]
     for si, cb, lim in plan:
         st = structsA[si]
         ops = [o for o in opsA if P1.COST_A.get(tuple(o), 1.5) < lim]
-        target = 60 if cb['subset'] == 'none' else (5 if cb['subset'] == 'choose' else 9)
+        if lim < 0:
+            sel = CORE_OPS if lim == -1 else CHOOSE_OPS
+            ops = [o for o in opsA if tuple(o) in sel and tuple(o) != ('ipurge_zeros', 'cutoff')]
+        if quick:  # Tier A quick: core selection (every variant runs in Tier B and in the thorough tier)
+            sel = CHOOSE_OPS if (cb['subset'] == 'choose' or st['mods'][0] == 3) else CORE_OPS
+            ops = [o for o in ops if tuple(o) in sel and not (tuple(o) == ('ipurge_zeros', 'cutoff') and st['mods'][0] != 1)]
+        target = 3 if cb['subset'] == 'choose' else 9
         for ci, chunk in enumerate(P1._balanced(ops, P1.COST_A, target)):
             cases.append(dict(name=f"A[mod={st['mods']},qconj={[l['qconj'] for l in st['legs']]},{cb['subset']},{cb['prestate']},"
                                    f"flags={cb['legflags']},opt={cb['opt_level']}]ops{ci}:{P1._opsname(chunk)}",
                               fn='inv_case', params=dict(struct=st, ops=chunk, cplx=(si % 2 == 0), consume=list(QUICK_CONSUMERS if quick else ALL_CONSUMERS),
                                                          **cb), opts=OA))
-    OB = dict(max_paths=8000, max_wall_s=220, validate_paths=2, hard_timeout_s=235)
+    OB = dict(max_paths=40000, max_wall_s=220 if quick else 1600, validate_paths=2, hard_timeout_s=235 if quick else 1750)
     for si, st in enumerate(P1.structs_B(tier, seed)):
+        if quick and si in (3, 4, 5, 6):
+            continue
         cb = dict(subset='draw' if si % 3 else 'all', prestate=['reversed', 'rotated', 'sorted'][si % 3], legflags=['computed', 'false'][si % 2],
                   opt_level=[1, 0, 3][si % 3])
         for ci, chunk in enumerate(P1._chunks(opsB, 40)):
